@@ -12,7 +12,8 @@ Import ListNotations.
 
 Inductive mop : Type :=
 | MFresh                        (* x = Point() : a free leaf point *)
-| MEval (f : nat) (p : pdict).  (* g, fx = f.oracle(p) : fresh gradient leaf, fresh value leaf *)
+| MEval (f : nat) (p : pdict)   (* g, fx = f.oracle(p) : fresh gradient leaf, fresh value leaf *)
+| MStat (f : nat).              (* xs = f.stationary_point() : fresh leaf point, EMPTY gradient, fresh value leaf *)
 
 Definition msample : Type := (pdict * pdict * edict)%type.
 
@@ -30,6 +31,9 @@ Definition mstep (s : mstate) (o : mop) : mstate :=
   | MEval f p =>
       mkM (S (m_np s)) (S (m_ne s))
           (m_samples s ++ [(f, (p, [(m_np s, 1%Q)], [(KF (m_ne s), 1%Q)]))])
+  | MStat f =>
+      mkM (S (m_np s)) (S (m_ne s))
+          (m_samples s ++ [(f, ([(m_np s, 1%Q)], [], [(KF (m_ne s), 1%Q)]))])
   end.
 
 Definition mrun (ops : list mop) (s : mstate) : mstate := fold_left mstep ops s.
@@ -41,5 +45,5 @@ Fixpoint mwf (ops : list mop) (s : mstate) : bool :=
   match ops with
   | [] => true
   | o :: ops' =>
-      (match o with MFresh => true | MEval _ p => keys_below (m_np s) p end) && mwf ops' (mstep s o)
+      (match o with MEval _ p => keys_below (m_np s) p | _ => true end) && mwf ops' (mstep s o)
   end.
